@@ -14,11 +14,11 @@
      same_value r r' z := ExactW r z /\ ExactW r' z /\ (r == r') = true /\ (z <> 0 -> r = r') Proofs/PolyExactF.v
      geom n xi    := 1 + xi + ... + xi^(n-1)                                                   Proofs/PolyExactB.v
      CExactW, CExact, cn1 g = |re g| + |im g|, ceval_fits                                      Proofs/PolyExactC.v
-     polydiv_fits N u v : every pass of the integer long division fits below 2^53              Proofs/PolyExactDiv.v *)
+     polydiv_fits N D u v : every pass of the integer long division fits below 2^53              Proofs/PolyExactDiv.v *)
 From Coq Require Import ZArith Reals Floats Lia List Bool Arith.
 From OV Require Import Base.Panic Base.Arith gen.Params Model.Poly Model.Complex Inst.FloatInst Proofs.Poly
   Proofs.ParDotFloat Proofs.PolyExact Proofs.PolyExactF Proofs.PolyExactB Proofs.PolyExactC Proofs.PolyExactDiv
-  Proofs.PolyExactDivZ Proofs.PolyExactDivF Proofs.PolyExactEx.
+  Proofs.PolyExactDivZ Proofs.PolyExactDivF Proofs.PolyExactDivC Proofs.PolyExactEx.
 Import ListNotations.
 
 (* ==== C11 ==== *)
@@ -649,18 +649,18 @@ Qed.
    2^53 (polydiv_fits: the quotient term, the updated quotient, the products and the updated remainder), then the float
    division returns the float images of (q0, r0) *)
 Theorem polydiv_exact_float_run : forall (u v : list PrimFloat.float) (uz vz q0 r0 : list Z),
-  Forall2 ExactW u uz -> Forall2 ExactW v vz -> polydiv_fits (ZA := AZ) Z.abs uz vz ->
+  Forall2 ExactW u uz -> Forall2 ExactW v vz -> polydiv_fits (ZA := AZ) Z.abs (fun _ _ => True) uz vz ->
   polydiv (A := AZ) uz vz = Ok (inl (q0, r0)) ->
   exists q r, polydiv (A := AF) u v = Ok (inl (q, r)) /\ Forall2 ExactW q q0 /\ Forall2 ExactW r r0.
 Proof. exact polydiv_exact_float_run_lemma. Qed.
 Check polydiv_exact_float_run : forall (u v : list PrimFloat.float) (uz vz q0 r0 : list Z),
-  Forall2 ExactW u uz -> Forall2 ExactW v vz -> polydiv_fits (ZA := AZ) Z.abs uz vz ->
+  Forall2 ExactW u uz -> Forall2 ExactW v vz -> polydiv_fits (ZA := AZ) Z.abs (fun _ _ => True) uz vz ->
   polydiv (A := AZ) uz vz = Ok (inl (q0, r0)) ->
   exists q r, polydiv (A := AF) u v = Ok (inl (q, r)) /\ Forall2 ExactW q q0 /\ Forall2 ExactW r r0.
 Print Assumptions polydiv_exact_float_run.
 (* u = 8 + 2x + 6x^2 + 4x^3 by v = 4 + 2x (leading coefficient 2 divides 4, -2, 6): q = 3 - x + 2x^2, r = -4 *)
 Example polydiv_exact_float_run_nonvacuous :
-  Forall2 ExactW exU2 exU2z /\ Forall2 ExactW exV2 exV2z /\ polydiv_fits (ZA := AZ) Z.abs exU2z exV2z /\
+  Forall2 ExactW exU2 exU2z /\ Forall2 ExactW exV2 exV2z /\ polydiv_fits (ZA := AZ) Z.abs (fun _ _ => True) exU2z exV2z /\
   polydiv (A := AZ) exU2z exV2z = Ok (inl ([3; -1; 2]%Z, [-4]%Z)) /\
   polydiv (A := AF) exU2 exV2 = Ok (inl ([3; -1; 2]%float, [-4]%float)).
 Proof.
@@ -695,4 +695,27 @@ Print Assumptions polydiv_int_identity_unique.
 Example polydiv_int_identity_unique_nonvacuous :
   polydiv (A := AZ) exUz exVz = Ok (inl ([-4; 1; 2]%Z, [19; -10]%Z)) /\ exVz <> [] /\ last exVz 0%Z <> 0%Z.
 Proof. split; [vm_compute; reflexivity|]. split; discriminate. Qed.
+
+(* Complex<f64> with Gaussian-integer coefficients: the same for the complex long division.  The complex quotient term is
+   ((a c + b d)/(c^2 + d^2), (b c - a d)/(c^2 + d^2)): over the Gaussian integers (AZC) both divisions must be exact, and
+   cDfit asks that the six products fit:  cn1 lead(r) * cn1 lead(v) < 2^53  and  (cn1 lead(v))^2 < 2^53 *)
+Theorem cpolydiv_exact_float_run : forall (u v : list (cplx AF)) (uz vz q0 r0 : list (cplx AZ)),
+  Forall2 CExactW u uz -> Forall2 CExactW v vz -> polydiv_fits (ZA := AZC) cn1 cDfit uz vz ->
+  polydiv (A := AZC) uz vz = Ok (inl (q0, r0)) ->
+  exists q r, polydiv (A := ACF) u v = Ok (inl (q, r)) /\ Forall2 CExactW q q0 /\ Forall2 CExactW r r0.
+Proof. exact cpolydiv_exact_float_run_lemma. Qed.
+Check cpolydiv_exact_float_run : forall (u v : list (cplx AF)) (uz vz q0 r0 : list (cplx AZ)),
+  Forall2 CExactW u uz -> Forall2 CExactW v vz -> polydiv_fits (ZA := AZC) cn1 cDfit uz vz ->
+  polydiv (A := AZC) uz vz = Ok (inl (q0, r0)) ->
+  exists q r, polydiv (A := ACF) u v = Ok (inl (q, r)) /\ Forall2 CExactW q q0 /\ Forall2 CExactW r r0.
+Print Assumptions cpolydiv_exact_float_run.
+(* u = (2-i) + 3i x + (1+i) x^2 + 2 x^3 by the monic v = (1+i) + x *)
+Example cpolydiv_exact_float_run_nonvacuous :
+  Forall2 CExactW exCU exCUz /\ Forall2 CExactW exCV exCVz /\ polydiv_fits (ZA := AZC) cn1 cDfit exCUz exCVz /\
+  (exists q0 r0, polydiv (A := AZC) exCUz exCVz = Ok (inl (q0, r0)) /\
+     exists q r, polydiv (A := ACF) exCU exCV = Ok (inl (q, r)) /\ length q = 3%nat /\ length r = 1%nat).
+Proof.
+  split; [exact exCU_exact|]. split; [exact exCV_exact|]. split; [exact exCU_fits|].
+  eexists _, _. split; [vm_compute; reflexivity|]. eexists _, _. split; [vm_compute; reflexivity|]. split; reflexivity.
+Qed.
 
